@@ -430,7 +430,7 @@ def jsonable(x):
   return repr(x)
 
 
-def stale_call(f, *args, near=False):
+def stale_call(f, *args, near=False, zero=False):
   """f(*args), but evaluated the way iterative callers do it: every ndarray argument lives in a buffer that held OTHER values during an
   earlier call of f and was then overwritten in place.  A memo keyed on the caller's array object (or on a stale copy of anything that
   is not the value) returns the earlier answer here; a correct implementation cannot tell the difference.  Exceptions of the decoy
@@ -442,7 +442,8 @@ def stale_call(f, *args, near=False):
       b[...] = np.roll(a.reshape(-1), 1).reshape(a.shape) + 1        # integer buffers stay integer buffers
     elif isinstance(b, np.ndarray):
       # far decoy: other values altogether; near decoy: within 1e-6 relative (a tolerance-based cache key must not mistake it)
-      b[...] = (a * (1 + 2.0 ** -20) + 2.0 ** -30) if near else (np.roll(a.reshape(-1), 1).reshape(a.shape) * 0.75 + 0.125)
+      # zero decoy: the all-zero point iterative callers start from (a kink of the lossy devices)
+      b[...] = 0.0 if zero else (a * (1 + 2.0 ** -20) + 2.0 ** -30) if near else (np.roll(a.reshape(-1), 1).reshape(a.shape) * 0.75 + 0.125)
   try:
     f(*bufs)
   except Exception:
@@ -454,10 +455,10 @@ def stale_call(f, *args, near=False):
 
 
 def maybe_stale(case, f, *args):
-  """A plain call for a third of the cases (decided by the case content), stale_call with a far decoy for a third, with a near decoy
-  (every entry within 1e-6 relative of the real one) for the rest."""
-  h = int(case_hash(case), 16) % 3
-  return f(*args) if h == 0 else stale_call(f, *args, near=(h == 2))
+  """A plain call for a quarter of the cases (decided by the case content), stale_call with a far decoy for a quarter, with a near
+  decoy (every entry within 1e-6 relative of the real one) for a quarter, with the all-zero decoy for the rest."""
+  h = int(case_hash(case), 16) % 4
+  return f(*args) if h == 0 else stale_call(f, *args, near=(h == 2), zero=(h == 3))
 
 
 def case_hash(case):
